@@ -389,6 +389,7 @@ def _canary_task(i):
         uses_c = {k: [x for x in v if x not in cn.get('inline', [])] for k, v in uses.items()}
         r = driver.run_contracts(world, contracts, uses_c, only=[cn.get('verify', cn['function'])],
                                  combo_filter=cn.get('combos'))
+        r_all = r
         o2, _ = driver.aggregate(contracts, r)
         st = o2.get(cn['expect'], {}).get('status')
         if st != 'refuted' and cn.get('unproved_is_enough'):
@@ -397,6 +398,9 @@ def _canary_task(i):
             for oid, o in sorted(o2.items()):
                 if o.get('sat', 0) + o.get('unknown', 0) > 0:
                     return 'refuted'
+            # ... or the mutated body leaves the subset the proof rules cover (e.g. iterates a list it mutates)
+            if any(r.get('unsupported') for r in r_all):
+                return 'refuted'
         if st != 'refuted':
             # the mutated body must be rejected; the obligation that rejects it may be another one of the same
             # contract (e.g. an assertion of the code itself now fails first)
